@@ -1515,3 +1515,17 @@ def shutdown_is_a_select_branch(ctx, rule):
                 ("in %s's biased select the shutdown branch is polled after other branches (position %s): while an earlier branch is always ready - a busy front end - the stop signal is never seen and the client keeps running after the connection failed" % (task, where_closed)),
                 "%s:%d" % ((F.parent_body(b) or b).file, (F.parent_body(b) or b).lo))
     R.floor(rule, n, 2, "selects of the client's background tasks")
+
+
+def frontend_family(F):
+    """handle_frontend_messages' coroutine body and the coroutine bodies of the async_client functions it awaits (an arm
+    moved into a helper). -> (hfm, [helpers])"""
+    hfm = F.one(r"^jsonrpsee_core::client::async_client::handle_frontend_messages::\{closure#0\}$")
+    helpers = []
+    for c in hfm.calls:
+        nm = c.name() or ""
+        if re.match(r"^jsonrpsee_core::client::async_client::(?!helpers::|manager::|utils::)\w+$", nm):
+            tgt = F.bodies.get(nm + "::{closure#0}")
+            if tgt is not None and tgt is not hfm and tgt not in helpers:
+                helpers.append(tgt)
+    return hfm, helpers
